@@ -9,21 +9,21 @@ CLAIMED = {
  'C01': ('exploration', 'seeded search over graphs, edit/build histories and process schedules of the real redo tree; every successful command is compared with a from-scratch evaluator', 'oracle = small DSL evaluator; scripts are simdo programs whose output is a pure function of rule and dependency contents; flags are declared dependencies'),
  'C02': ('exploration', 'seeded search over histories (edits, dropped dependencies, rule shadowing, removals, repeats) and schedules; the scripts run by each command are compared with the must/may/must-not sets of the SeenModel reference', 'reference model written from the property text (what each target consumed at its last successful build vs what those inputs are now); may-run zone = plain dependency rebuilt to identical bytes'),
  'C03': ('exploration', 'seeded search over checksummed chains of depth 1-3 with noise, always and removal histories on the direct and the out-of-band path; SeenModel must/may sets plus from-scratch freshness', 'stamp masks are not generated (a mask that hides bytes dependents read contradicts C01 by construction)'),
- 'C04': ('fault_enumeration', 'the finite cross product 8 script behaviours x 6 output sizes x 3 prior states is enumerated completely, every cell under several seeded schedules, half of them with the script killed at a walked yield; per-step watcher of every state of the target a reader can see', 'a script that writes $1 itself changes the target by its own doing; redo is only held to status 206 and to not touching it further'),
+ 'C04': ('fault_enumeration', 'the finite cross product 9 script behaviours x 6 output sizes x 3 prior states (162 cells) is enumerated completely, every cell under several seeded schedules, half of them with the script killed at a walked yield, a third with a stale temp file left by a killed run; per-step watcher of every state of the target a reader can see', 'a script that writes $1 itself changes the target by its own doing; redo is only held to status 206 and to not touching it further'),
  'C05': ('exploration', 'seeded search over failing subsets, command-line orders, -k/-j and schedules across fail/repeat/repair histories', 'failure cone computed by the from-scratch evaluator; flags are declared dependencies'),
- 'C06': ('exploration', 'seeded search over 2-4 concurrent invocations, late starters and kills; trace invariants over the totally ordered event log', "lock byte of a job inferred from the builder's own fcntl calls at the libc seam"),
+ 'C06': ('exploration', 'seeded search over 2-4 concurrent invocations on fresh and on previously built projects, late starters and kills; trace invariants over the totally ordered event log', "lock byte of a job inferred from the builder's own fcntl calls at the libc seam; the orphan of a SIGKILLed builder is a known finding"),
  'C07': ('exploration', 'seeded search over -j, --shuffle, script durations and schedules; differential against the serial -j1 replay of the same history plus the from-scratch evaluator', 'structural DB comparison ignores run ids and stamps'),
  'C08': ('exploration', 'seeded search with select-stall faults; token pipe fill and working scripts observed at every scheduling step; own and inherited (make-style) jobserver', 'allows +1 per live redo-log follower as the property states'),
- 'C09': ('exploration', 'seeded search over interleavings of child exits, token arrivals, timers and lock hand-overs; exact deadlock detection (all parked, none enabled, no deadline)', 'panic detection by exit status 101/SIGABRT and stderr text'),
- 'C10': ('fault_enumeration', 'per scenario every state-changing libc call of every redo process in a recorded schedule is a crash point; all of them are enumerated with kill-process and kill-tree, followed by recovery, edit and rebuild', 'process kills only (no power loss: synchronous=off promises nothing there); SQLite page atomicity under kill is trusted; two windows are recorded as known findings'),
+ 'C09': ('exploration', 'seeded search over interleavings of child exits, token arrivals, timers and lock hand-overs, including jobs that run for minutes of simulated time; exact deadlock detection (all parked, none enabled, no deadline)', 'panic detection by exit status 101/SIGABRT and stderr text'),
+ 'C10': ('fault_enumeration', 'per scenario every state-changing libc call of every redo process in a recorded schedule is a crash point; all of them are enumerated with kill-process and kill-tree, followed by recovery, edit and rebuild', 'process kills only (no power loss: synchronous=off promises nothing there); SQLite page atomicity under kill is trusted; the rename window of a first build is recorded as a known finding'),
  'C11': ('exploration', 'seeded search over role-change histories; trace invariant on every rename/unlink/open/truncate issued by redo processes plus inode+bytes comparison of user-owned files around every command', 'scripts in these scenarios never touch user files themselves'),
- 'C12': ('exploration', 'seeded search over cycle shapes, entry points, -j and schedules; exact deadlock detection', 'cycle identified by status 208 or the error text'),
+ 'C12': ('exploration', 'seeded search over cycle shapes (plain and checksummed nodes, prefixes, tangled graphs), entry points, -j and schedules; exact deadlock detection', 'cycle identified by status 208 or the error text; a cycle entered at two nodes in parallel is a known finding, recognised by who holds which lock'),
  'C13': ('exploration', 'seeded search over names, depths, candidate placements and add/remove histories; independent reference enumeration of candidates; script arguments taken from the running script', 'the candidate list as a pure function is compared on generated paths only (pure-function clause is outside simulation)'),
  'C14': ('exploration', 'seeded search over ifcreate/always/ifchange mixes and create/delete histories at -j1..4; SeenModel sets, exactly-once for always-targets', 'ifcreate idiom = ifchange when the path exists else ifcreate'),
  'C15': ('exploration', 'seeded search over spellings (relative, ./, .., //, absolute, via symlinked directory), working directories, duplicates on one command line, -j; one database row, one build per real file', 'the second sentence of C15 (lexical cleaning exhaustively over byte strings) is a pure function and is not claimed by this technique'),
  'C16': ('exploration', 'seeded search over 2-6 simultaneous commands including first-ever ones; every SQLite lock/write call is a scheduling point, busy handler runs on simulated time', "stall/starvation windows are bounded far below SQLite's 60 s busy timeout"),
  'C17': ('exploration', 'seeded search over histories with queries inserted; SeenModel lower/upper bounds for redo-ood, partition check for redo-targets/redo-sources, paired replay without the queries (stable per-command seeds)', 'outcomes (scripts run, status, files, structural DB) are compared, not raw traces'),
- 'C18': ('exploration', 'seeded search over interleavings of stderr writers with the redo-log follower (reads, sleeps, lock probes are scheduling points); per-target line sequences in the live raw output and in a later redo-log replay', 'the record format/parse round trip for arbitrary field values is a pure function and is not claimed by this technique'),
+ 'C18': ('exploration', 'seeded search over interleavings of stderr writers (whole, partial, multi-piece, long lines; targets rebuilt within a session) with the redo-log follower (reads, sleeps, lock probes are scheduling points); per-target line sequences in the live raw output and in a later redo-log replay', 'the record format/parse round trip for arbitrary field values is a pure function and is not claimed by this technique'),
 }
 TODO_REASON = 'check not built yet in this round (planned, see DESIGN.md section 6); not claimed until it runs clean'
 
@@ -45,7 +45,7 @@ m = {
  }],
  "checks": [],
  "not_applicable": [],
- "notes": "Every check: ./check <ID> --tier quick|thorough; exit 0 held, 1 VIOLATION (replay file), 2 harness error. VERIF_SEED honoured. Repaired defects are listed in known_findings.txt.",
+ "notes": "Every check: ./check <ID> --tier quick|thorough; exit 0 held, 1 VIOLATION (replay file), 2 harness error. VERIF_SEED honoured. Repaired defects (fixed: lines) and known findings (JSON lines) are in known_findings.txt; genuine defects of /repo were repaired in 23 unguarded `fix:` commits; no hook commits exist (hooks.source_commits is empty).",
 }
 for p in props:
     i = p['id']
